@@ -319,6 +319,14 @@ func (vc *VC) applySpec(calleeName string, spec *FuncSpec, sig *types.Signature,
 	for _, ml := range mls {
 		vc.havoc(st, ml)
 	}
+	if at != nil {
+		for _, m := range at.Modifies {
+			for _, ml := range callerEnv.evalLocs(m) {
+				vc.havoc(st, ml)
+			}
+		}
+		callerEnv.flushSide(reach)
+	}
 	if !spec.Pure {
 		a := vc.fresh("alloc", "Int")
 		vc.assume(fmt.Sprintf("(>= %s %s)", a, st.alloc))
@@ -796,6 +804,11 @@ func (vc *VC) execPanic(x *ssa.Panic, st *State) {
 		f := e0.evalBool(vc.spec.Panics.E)
 		e0.flushSide(reach)
 		vc.oblige("panics.site", "", reach, f, "panic only when "+vc.spec.Panics.Src)
+		return
+	}
+	if vc.spec.MayPanic {
+		// partial correctness: the contract only speaks about normal returns
+		vc.notes = append(vc.notes, "explicit panic allowed by 'maypanic'")
 		return
 	}
 	vc.oblige("panic.unreachable", "", reach, "false", "explicit panic is unreachable")
